@@ -46,6 +46,10 @@ def run(chk, replay=None):
         progs.append(Prog("type Word = %s;\nfn id(x: Word) -> Word { x }\nfn main() { let w: Word = witness::W; let v: Word = id(w); }" % a, [], "alias/%s" % a))
         progs.append(Prog("type Word = %s;\nfn id(x: Word) -> Word { x }\nfn main() { let w: Word = witness::W; let v: Word = id(w); }" % b, [], "alias/%s" % b))
     progs.append(Prog("fn id(x: Word) -> Word { x }\nfn main() { let w: Word = witness::W; }", [], "alias/undefined"))
+    base_ok = "fn main() { assert!(jet::eq_8(1, 1)); }"
+    for nm, t in [("bom", "\ufeff" + base_ok), ("bom-bad", "\ufefffn main() {"), ("nbsp", "\u00a0" + base_ok), ("lead-ws", " \n\t" + base_ok), ("trail-ws", base_ok + " \n\n\t "), ("crlf", base_ok.replace(" ", "\r\n")),
+                  ("zwsp", base_ok + "\u200b"), ("ff", "\x0c" + base_ok), ("nul", base_ok + "\x00"), ("lead-comment", "// x\n/* y */" + base_ok)]:
+        progs.append(Prog(t, [], "blank/" + nm))
     progs += [Prog("fn main() { let x: u8 = y; }", [], "bad/undefined"), Prog("fn main() {", [], "bad/grammar"), Prog("", [], "bad/empty")]
     nproc = 8 if quick else 12
     for dbg in (0, 1):
